@@ -107,7 +107,7 @@ impl Callback for Balances {
         self.writer.flush()?;
 
         #[cfg(rbp_verif)]
-        crate::verif::ev("rename", &format!("\"file\":\"balances.csv.tmp\",\"to\":\"balances-{}-{}.csv\",\"buffered\":{}", self.start_height, self.end_height, self.writer.buffer().len()));
+        crate::verif::ev("rename", &format!("\"file\":\"balances.csv.tmp\",\"to\":\"balances-{}-{}.csv\",\"buffered\":{},\"ino\":{}", self.start_height, self.end_height, self.writer.buffer().len(), crate::verif::ino(&self.dump_folder.as_path().join("balances.csv.tmp"))));
         fs::rename(
             self.dump_folder.as_path().join("balances.csv.tmp"),
             self.dump_folder.as_path().join(format!(
@@ -117,7 +117,7 @@ impl Callback for Balances {
         )
         .expect("Unable to rename tmp file!");
         #[cfg(rbp_verif)]
-        crate::verif::ev("renamed", "\"file\":\"balances.csv.tmp\"");
+        crate::verif::ev("renamed", &format!("\"file\":\"balances.csv.tmp\",\"ino\":{}", crate::verif::ino(&self.dump_folder.as_path().join(format!("balances-{}-{}.csv", self.start_height, self.end_height)))));
 
         info!(target: "callback", "Done.\nDumped {} addresses.", balances.len());
         Ok(())
